@@ -88,6 +88,36 @@ theorem reflection_rejected (P : Prims) (hP : LawfulPrims P) (side : Side) (ak k
     (hmac : MacDiffers P side ak c) : ∃ e, decrypt P side ak keyId c = .error e :=
   tamper_rejected P hP side ak keyId c hmac
 
+/-- **Where reflection is undetectable — exactly characterised on the key side.**  For a *side-blind*
+auth key (the three key ranges read by MTProto 2.0 coincide with their 8-byte shifts:
+`substr(k,88,32) = substr(k,96,32)`, `substr(k,0,36) = substr(k,8,36)`, `substr(k,40,36) = substr(k,48,36)`)
+the client and the server cipher decide identically on *every* frame; in particular a message is
+accepted by the side that produced it.  Every key of period 8 (e.g. a constant key) is side-blind.
+So `MacDiffers` for reflected messages is false for these keys by construction of the protocol, not by
+a defect of the implementation; for all other keys it is the SHA-256 assumption. -/
+theorem reflection_accepted_for_sideBlind_keys (P : Prims) (hP : LawfulPrims P) (side : Side) (ak keyId : Bytes)
+    (salt sid mid seq : Nat) (payload rnd c : Bytes) (hblind : SideBlind ak)
+    (hk : keyId.length = 8) (h1 : salt < 2 ^ 64) (h2 : sid < 2 ^ 64) (h3 : mid < 2 ^ 64) (h4 : seq < 2 ^ 32)
+    (hmod : payload.length % 4 = 0) (hl : payload.length < 2 ^ 31)
+    (he : encrypt P side ak keyId salt sid mid seq payload rnd = .ok c) :
+    ∃ d, decrypt P side ak keyId c = .ok d ∧ d.payload = payload ∧ ¬ MacDiffers P side ak c := by
+  obtain ⟨r, rest, _, _, hd⟩ :=
+    decrypt_encrypt' P hP side ak keyId salt sid mid seq payload rnd c hk h1 h2 h3 h4 hmod hl he
+  rw [← sideBlind_decrypt_eq P hP ak keyId c hblind side] at hd
+  refine ⟨_, hd, by simp [Data.payload], ?_⟩
+  intro hmac
+  exact hmac ((decrypt_ok_iff P hP side ak keyId c _).mp hd).2.2.2.1
+
+/-- Keys of period 8 — `k[i+8] = k[i]` throughout, e.g. all bytes equal — are side-blind. -/
+theorem period8_keys_are_sideBlind (ak : Bytes) (h : Period8 ak) (hl : 128 ≤ ak.length) : SideBlind ak :=
+  period8_sideBlind ak h hl
+
+/-- Non-vacuity: the all-`0x07` 2048-bit key has period 8 (hence is side-blind); the key
+`0,1,2,…,255` is not side-blind. -/
+example : Period8 (List.replicate 256 7) := period8_replicate 256 7
+example : ¬ SideBlind ((List.range 256).map UInt8.ofNat) := by
+  intro h; exact absurd h.1 (by decide)
+
 /-- **Assumption-free form of tamper resistance.**  If two *different* frames with the same 24-byte
 envelope (key id, msg_key) are both accepted, then two different plaintexts have the same msg_key
 — an explicit collision of `substr (SHA256 (substr (auth_key, 88+x, 32) + ·), 8, 16)`. -/
